@@ -67,9 +67,16 @@ impl<'a, F: Function> Solver<'a, F> {
         // we'll be using tightly-packed Vec everywhere here
         //
         // (We ignore the gradient of fixed variables)
+        //
+        // Free variables which are not used by any equation are left out:
+        // their Jacobian column would be zero, which makes the normal matrix
+        // singular and their step numerical noise.
         let grad_index: HashMap<Var, usize> = vars
             .iter()
-            .filter(|(_v, p)| matches!(p, Parameter::Free(..)))
+            .filter(|(v, p)| {
+                matches!(p, Parameter::Free(..))
+                    && grad_tapes.iter().any(|t| t.vars().get(v).is_some())
+            })
             .enumerate()
             .map(|(i, (v, _p))| (*v, i))
             .collect();
@@ -197,11 +204,11 @@ pub fn solve<F: Function>(
         .map(|f| f.grad_slice_tape(Default::default()))
         .collect::<Vec<_>>();
 
-    // Current values for free variables
-    let mut cur = HashMap::new();
+    // Initial values for free variables
+    let mut initial = HashMap::new();
     for (v, p) in vars {
         if let Parameter::Free(f) = *p {
-            cur.insert(*v, f);
+            initial.insert(*v, f);
         }
     }
 
@@ -209,8 +216,10 @@ pub fn solve<F: Function>(
 
     // If every parameter is fixed, then there is nothing to solve for (and no
     // gradient columns to evaluate)
+    //
+    // (free variables that no equation uses keep their initial value)
     if solver.grad_index.is_empty() {
-        return Ok(HashMap::new());
+        return Ok(initial);
     }
 
     // Build an array of current values for each free variable
@@ -286,11 +295,10 @@ pub fn solve<F: Function>(
     }
 
     // Return the new "current" values, which are our optimized position
-    let out = solver
-        .grad_index
-        .into_iter()
-        .map(|(v, i)| (v, cur[i]))
-        .collect();
+    //
+    // Free variables that no equation uses keep their initial value
+    let mut out = initial;
+    out.extend(solver.grad_index.into_iter().map(|(v, i)| (v, cur[i])));
     Ok(out)
 }
 
